@@ -25,14 +25,14 @@ import (
 // CaseSpec describes one unit of exploration (one history, one DAG, one batch
 // of inputs ...). It is fully determined by (property, tier, seed, index).
 type CaseSpec struct {
-	Prop   string           `json:"prop"`
-	Tier   string           `json:"tier"`
-	Seed   int64            `json:"seed"`
-	Index  int              `json:"index"`
-	Kind   string           `json:"kind"`
-	P      map[string]int64 `json:"p,omitempty"`
+	Prop   string            `json:"prop"`
+	Tier   string            `json:"tier"`
+	Seed   int64             `json:"seed"`
+	Index  int               `json:"index"`
+	Kind   string            `json:"kind"`
+	P      map[string]int64  `json:"p,omitempty"`
 	S      map[string]string `json:"s,omitempty"`
-	Replay string           `json:"replay,omitempty"`
+	Replay string            `json:"replay,omitempty"`
 }
 
 func (c CaseSpec) I(k string, def int64) int64 {
@@ -68,16 +68,16 @@ type Violation struct {
 
 // CaseResult is what a worker reports for one case.
 type CaseResult struct {
-	Case         CaseSpec         `json:"case"`
-	Verdict      string           `json:"verdict"` // held | violated | inconclusive | crashed
-	Evaluations  int64            `json:"evaluations"`
-	Digests      []string         `json:"digests,omitempty"` // digests of distinct non-trivial cases seen
-	Counters     map[string]int64 `json:"counters,omitempty"`
-	Maxes        map[string]int64 `json:"maxes,omitempty"`
-	Sample       interface{}      `json:"sample,omitempty"`
-	Violations   []Violation      `json:"violations,omitempty"`
-	Note         string           `json:"note,omitempty"`
-	WallMs       int64            `json:"wall_ms"`
+	Case        CaseSpec         `json:"case"`
+	Verdict     string           `json:"verdict"` // held | violated | inconclusive | crashed
+	Evaluations int64            `json:"evaluations"`
+	Digests     []string         `json:"digests,omitempty"` // digests of distinct non-trivial cases seen
+	Counters    map[string]int64 `json:"counters,omitempty"`
+	Maxes       map[string]int64 `json:"maxes,omitempty"`
+	Sample      interface{}      `json:"sample,omitempty"`
+	Violations  []Violation      `json:"violations,omitempty"`
+	Note        string           `json:"note,omitempty"`
+	WallMs      int64            `json:"wall_ms"`
 }
 
 func newResult(cs CaseSpec) *CaseResult {
@@ -132,7 +132,7 @@ func writeWitness(cs CaseSpec, prop, sig, msg string, witness interface{}) strin
 	witnessMu.Unlock()
 	dir := filepath.Join(verifDir(), "violations")
 	os.MkdirAll(dir, 0o755)
-	name := fmt.Sprintf("%s-%s-s%d-c%d-%d-%s.json", prop, cs.Tier, cs.Seed, cs.Index, seq, shortHash(sig+msg)[:6])
+	name := fmt.Sprintf("%s-%s-s%d-c%d-%d-%s.json", prop, cs.Tier, cs.Seed, cs.Index, seq, shortHash(sig + msg)[:6])
 	path := filepath.Join(dir, name)
 	doc := map[string]interface{}{
 		"property": prop, "signature": sig, "message": msg, "case": cs, "witness": witness,
